@@ -35,6 +35,35 @@ import (
 )
 
 // ------------------------------------------------------------------------------------------
+// vocabulary shared with the sequential registry harness (C08), kept here so that this harness does not
+// depend on the white-box calls of that one (a change to a function only C08 calls must not stop C09's
+// harness from compiling)
+
+// c09Op: one serial set-up operation: 'r' register, 't' track, 'm' markActive, at virtual second `now`.
+type c09Op struct {
+	kind        byte
+	ph, sec, tr int
+	now         int64
+}
+
+// The code reads the real clock: the age it sees is the virtual age plus the real time the run has taken.
+// A run slower than this limit is not compared (its dumped creation times are not exact).
+const c09SlowLimit = 900 * time.Millisecond
+
+// the property's two lifetimes, in seconds
+const c09Unused, c09Active = 600, 21600
+
+var c09Phantoms = []string{"10.0.0.1", "10.0.0.2", "2001:db8::1"}
+
+func c09Secret(i int) []byte {
+	s := make([]byte, 32)
+	for j := range s {
+		s[j] = byte(i*37 + j)
+	}
+	return s
+}
+
+// ------------------------------------------------------------------------------------------
 // liveness stub: answers per phantom, with a scheduling point while "probing"
 
 type c09Live struct {
@@ -142,7 +171,7 @@ type c09Thread struct {
 type c09Scenario struct {
 	name   string
 	budget int     // schedules to run (0: the tier's limit); set where Go's map order makes the schedule tree vary from run to run
-	pre    []c08Op // serial set-up (uses the C08 op vocabulary); times are virtual seconds
+	pre    []c09Op // serial set-up (uses the C08 op vocabulary); times are virtual seconds
 	now    int64   // virtual "now" at which the concurrent part runs
 	ths    []c09Thread
 }
@@ -150,7 +179,7 @@ type c09Scenario struct {
 type c09Result struct {
 	model, impl string
 	choices     [][]int // runnable sets at each step (for the DFS)
-	slow        bool    // the run took longer than c08SlowLimit: its dumped creation times are not reliable
+	slow        bool    // the run took longer than c09SlowLimit: its dumped creation times are not reliable
 }
 
 // c09Case records a run as a correspondence case unless it was too slow for its dump to be exact.
@@ -167,9 +196,9 @@ var c09Trs = []pb.TransportType{pb.TransportType_Min, pb.TransportType_Prefix}
 func c09Reg(ph, sec, tr int, prescanned bool, covert string) *DecoyRegistration {
 	src := pb.RegistrationSource_API
 	d := &DecoyRegistration{
-		PhantomIp:          net.ParseIP(c08Phantoms[ph]),
+		PhantomIp:          net.ParseIP(c09Phantoms[ph]),
 		PhantomPort:        443,
-		Keys:               &core.ConjureSharedKeys{SharedSecret: c08Secret(sec)},
+		Keys:               &core.ConjureSharedKeys{SharedSecret: c09Secret(sec)},
 		Transport:          c09Trs[tr],
 		RegistrationSource: &src,
 		Covert:             covert,
@@ -220,7 +249,7 @@ func runC09(out *vlib.Out, sc *c09Scenario, prefixSched []int) c09Result {
 		advance(op.now)
 		d := c09Reg(op.ph, op.sec, op.tr, true, "1.2.3.4:443")
 		id := vlib.Hex([]byte(rd.transports[d.Transport].GetIdentifier(d)))
-		phs := c08Phantoms[op.ph]
+		phs := c09Phantoms[op.ph]
 		switch op.kind {
 		case 'r':
 			_ = rd.register(phs, d)
@@ -475,7 +504,7 @@ func runC09(out *vlib.Out, sc *c09Scenario, prefixSched []int) c09Result {
 		}
 	}
 	for _, to := range rd.decoysTimeouts {
-		v := vnow - int64(time.Since(to.registrationTime)/time.Second) // exact while the run is faster than c08SlowLimit
+		v := vnow - int64(time.Since(to.registrationTime)/time.Second) // exact while the run is faster than c09SlowLimit
 		t = append(t, fmt.Sprintf("%s,%s,%d,%s", to.decoy, vlib.Hex([]byte(to.identifier)), v, vlib.B(to.status == regStatusUsed)))
 	}
 	sort.Strings(d)
@@ -490,19 +519,21 @@ func runC09(out *vlib.Out, sc *c09Scenario, prefixSched []int) c09Result {
 	}
 	model := fmt.Sprintf("conc|600|21600|1,4|%s|%s|%s", strings.Join(mpre, ";"), strings.Join(mths, ";"), strings.Join(ss, ","))
 	impl := strings.Join(events, ";") + "|D:" + strings.Join(d, "/") + "|T:" + strings.Join(t, "/") + "|bad=0|done=" + vlib.B(allDone)
-	return c09Result{model: model, impl: impl, choices: choices, slow: time.Since(t0) >= c08SlowLimit || ambiguous}
+	return c09Result{model: model, impl: impl, choices: choices, slow: time.Since(t0) >= c09SlowLimit || ambiguous}
 }
 
 // c09Collected: which keys a sweeper would collect — the registrations of the set-up that are expired
 // at the scenario's time (nothing a concurrent thread tracks is old enough, and a single sweeper
 // removes); in which order it then works through them is observed, see runC09.
 func c09Collected(sc *c09Scenario) []string {
-	w := newC08World()
+	rd := NewRegisteredDecoys()
+	rd.transports[pb.TransportType_Min] = min.Transport{}
+	rd.transports[pb.TransportType_Prefix] = prefix.Transport{}
 	var last map[string]int64 = map[string]int64{}
 	used := map[string]bool{}
 	for _, op := range sc.pre {
 		d := c09Reg(op.ph, op.sec, op.tr, true, "")
-		k := c08Phantoms[op.ph] + ":" + vlib.Hex([]byte(w.rd.transports[d.Transport].GetIdentifier(d)))
+		k := c09Phantoms[op.ph] + ":" + vlib.Hex([]byte(rd.transports[d.Transport].GetIdentifier(d)))
 		switch op.kind {
 		case 'r', 't':
 			if _, ok := last[k]; !ok {
@@ -517,7 +548,7 @@ func c09Collected(sc *c09Scenario) []string {
 	var ks []string
 	for k, t0 := range last {
 		age := sc.now - t0
-		if age > c08Active || (!used[k] && age > c08Unused) {
+		if age > c09Active || (!used[k] && age > c09Unused) {
 			ks = append(ks, k)
 		}
 	}
@@ -531,8 +562,8 @@ func c09Scenarios() []*c09Scenario {
 	}
 	S := c09Thread{kind: 's'}
 	H := func(ph, sec, tr int) c09Thread { return c09Thread{kind: 'h', ph: ph, sec: sec, tr: tr} }
-	old := []c08Op{{kind: 'r', ph: 1, sec: 3, tr: 0, now: 0}} // valid, unused, 11 min old at now=660
-	old2 := []c08Op{{kind: 'r', ph: 1, sec: 3, tr: 0, now: 0}, {kind: 'r', ph: 1, sec: 2, tr: 1, now: 0}}
+	old := []c09Op{{kind: 'r', ph: 1, sec: 3, tr: 0, now: 0}} // valid, unused, 11 min old at now=660
+	old2 := []c09Op{{kind: 'r', ph: 1, sec: 3, tr: 0, now: 0}, {kind: 'r', ph: 1, sec: 2, tr: 1, now: 0}}
 	C := c09Thread{kind: 'c'}
 	scs := []*c09Scenario{
 		{name: "dup2+sweeper+handler", pre: old, now: 660, ths: []c09Thread{I(0, 0, 0, true, false), I(0, 0, 0, true, false), S, H(0, 0, 0)}},
@@ -597,6 +628,7 @@ func TestVerifC09(t *testing.T) {
 			c09Pipeline(t, out)
 			c09WorkersSurviveBadInput(out)
 			c09StartupCancel(out)
+			c09EnvResponses(out)
 		}
 		return
 	}
@@ -663,6 +695,7 @@ func TestVerifC09(t *testing.T) {
 	c09Pipeline(t, out)
 	c09WorkersSurviveBadInput(out)
 	c09StartupCancel(out)
+	c09EnvResponses(out)
 }
 
 // runC09Random runs one uniformly random schedule (chosen step by step among runnable threads).
@@ -1026,7 +1059,7 @@ func TestVerifC09Race(t *testing.T) {
 		covert := "1.2.3.4:443"
 		src := pb.RegistrationSource_API
 		for time.Now().Before(stop) {
-			keys, err := core.GenSharedKeys(uint(v), c08Secret(1), tr)
+			keys, err := core.GenSharedKeys(uint(v), c09Secret(1), tr)
 			if err != nil {
 				panic(err)
 			}
